@@ -27,17 +27,18 @@ def leading_plain(name):
     return k
 
 
-def universe(tier, rng):
+def universe(tier, rng, streams):
     names = []
     full = 2 if tier == "quick" else 3
     for n in range(1, full + 1):
         names += [list(t) for t in itertools.product(TIER1, repeat=n)]
     if tier == "quick":
         names += [list(t) for t in rng.sample(list(itertools.product(TIER1, repeat=3)), 900)]
-    # longer and wider names by sampling
-    for _ in range(400 if tier == "quick" else 12000):
-        n = rng.randint(3 if tier == "quick" else 4, 6)
-        names.append([rng.choice(TIER1 + TIER2) if rng.random() < 0.6 else "a" for _ in range(n)])
+    # longer and wider names from the fixed random streams
+    for srng in streams:
+        for _ in range(400):
+            n = srng.randint(3, 6)
+            names.append([srng.choice(TIER1 + TIER2) if srng.random() < 0.6 else "a" for _ in range(n)])
     for s in TIER2:
         names += [[s], ["a", s], [s, "a"], ["a", s, "a"], [s, s]]
     scns, seen = [], set()
@@ -47,11 +48,12 @@ def universe(tier, rng):
         for o in OPENS:
             ks = {0, leading_plain(name)} if o != "none" else {0, min(1, leading_plain(name))}
             for k in sorted(ks):
+                # files by default; directories and an already present closing quote on a fixed tenth each
+                h = sum(map(ord, "".join(name) + o)) + 7 * k
                 variants = [{}]
-                r = rng.random()
-                if r < 0.15:
+                if h % 7 == 0:
                     variants.append({"dir": True})
-                if o != "none" and r > 0.85:
+                if o != "none" and h % 7 == 1:
                     variants.append({"closing_after": True})
                 for v in variants:
                     scn = dict({"name": name, "open": o, "typed": k}, **v)
@@ -62,10 +64,12 @@ def universe(tier, rng):
     return scns
 
 
-def analyser_universe(tier, rng, lines):
+def analyser_universe(tier, rng, lines, streams):
     texts = list(HOSTILE) + lines
     texts += ["c0 " + t for t in ("'a b", '"a b', "r'a", "a\\ b", "a'b'c", "'a''b'", "$(c1 'a", "@(x) 'a", "a | c1 'b", "a && c1 \"b", "a; c1 b", "a > 'f", "a 2> f", "![c1 'a", "$[c1 a", "p'a", "pr'a", "f'{x}", "'''a", '"""a\nb')]
-    texts += ["".join(rng.choice(["c0", " ", "'", '"', "r'", "a", "\\", "$(", ")", "|", "&&", ";", ">", "@(", "![", "]", "\n", "#", "and", "or", "=", "-", "{", "}"]) for _ in range(rng.randint(1, 9))) for _ in range(600 if tier == "quick" else 20000)]
+    toks = ["c0", " ", "'", '"', "r'", "a", "\\", "$(", ")", "|", "&&", ";", ">", "@(", "![", "]", "\n", "#", "and", "or", "=", "-", "{", "}"]
+    for srng in streams:
+        texts += ["".join(srng.choice(toks) for _ in range(srng.randint(1, 9))) for _ in range(600)]
     scns, seen = [], set()
     for t in texts:
         if len(t) > 200 or "\x00" in t:
@@ -115,7 +119,7 @@ def run(tier, seed, replay=None):
             r = tlc.model_check("Quote", cfg_text=core.set_deviations(trace_cfg, [dev]), expect_ok=False, coverage=False, timeout=600)
             selftest[dev] = r["errors"][:1]
         res.coverage["deviation_selftest"] = selftest
-        scns = universe(tier, rng)
+        scns = universe(tier, rng, core.streams(tier, seed))
     out = pool.run("quote", scns, hooks=False, timeout=3000)
     bad_workers = [t for t in out if "steps" not in t]
     if bad_workers:
@@ -125,7 +129,7 @@ def run(tier, seed, replay=None):
     stats = core.validate_with_findings(res, "QuoteTrace", out, trace_cfg, describe=describe, timeout=3000, project=slim) if out else {"validated": 0}
     if not replay:
         lines = sorted({t["steps"][0]["obs"].get("completed_line") or t["steps"][0]["obs"]["line"] for t in out})
-        ascns = analyser_universe(tier, rng, lines if tier == "thorough" else rng.sample(lines, min(len(lines), 400)))
+        ascns = analyser_universe(tier, rng, lines if tier == "thorough" else rng.sample(lines, min(len(lines), 400)), core.streams(tier, seed))
     aout = pool.run("quote", ascns, hooks=False, timeout=3000)
     bad_workers = [t for t in aout if "steps" not in t]
     if bad_workers:
